@@ -2,8 +2,10 @@ import Clikit.Drv.Util
 import Clikit.Model.Output
 /-!
 Driver entries of the C11 models:
-`c11.sgr` (a style through one of the three ways of supplying it), `c11.render` (a message on a
-formatter), `c11.write` (one writing method), `c11.scopes` (a program of indentation scopes).
+`c11.sgr` (a style through one of the three ways of supplying it; field `spec`: the codes the
+specification demands), `c11.render` (a message on a formatter), `c11.write` (one writing method),
+`c11.scopes` (a program of indentation scopes).  `c11.render` / `c11.write` with `"wf": true` also
+answer the deciders of the hypotheses of the message theorems (field `wf`).
 -/
 namespace Clikit.Drv.C11
 open Lean Clikit.Drv Clikit.Style Clikit.Markup Clikit.Output
@@ -129,6 +131,22 @@ partial def progOf (l : List Json) : R Prog :=
   | s :: r => do return .seq (← stmtOf s) (← progOf r)
 end
 
+/-- the hypotheses of the message theorems of Props/C11 (`message_ok_decides`), decided for this
+message and this resolver -/
+def jWf (rv : Resolver) (msg : Str) : Json :=
+  Json.mkObj [("clean", .bool (cleanB msg)), ("balanced", .bool (balancedB rv (pieces msg)))]
+
+/-- add the field `wf` to an answer when the request asks for it (`"wf": true`) -/
+def withWf (req : Json) (rv : Resolver) (msg : Str) (ans : Json) : Json :=
+  match fOpt req "wf" with
+  | some (.bool true) => ans.setObjVal! "wf" (jWf rv msg)
+  | _ => ans
+
+/-- add the field `spec`: the codes the specification of `sgr_exact` demands for this style
+(`Props.C11.spec_codes_decides`), `null` when a colour is outside the table -/
+def withSpec (st : Style) (ans : Json) : Json :=
+  ans.setObjVal! "spec" (jOpt (jList jNat) (specCodes st))
+
 def jRender (r : Except Err (Str × Stack)) : Json :=
   match r with
   | .ok (o, st) => jOk (Json.mkObj [("out", jStr o), ("depth", jNat st.length)])
@@ -142,23 +160,23 @@ def handle (m : String) (j : Json) : Option (R Json) :=
       let route ← fStr j "route"
       match route with
       | "convert" =>
-        return jExcept (fun (p : PastelStyle) => Json.mkObj
-          [("codes", jList jNat (codes p)), ("applied", jStr (Style.apply p text))]) (convert st)
+        return withSpec st (jExcept (fun (p : PastelStyle) => Json.mkObj
+          [("codes", jList jNat (codes p)), ("applied", jStr (Style.apply p text))]) (convert st))
       | "call" =>
         match defaultRegistry with
-        | .error e => return jErr e
-        | .ok reg => return jRender (ansiFormat (registryResolver reg) [] text (some st))
+        | .error e => return withSpec st (jErr e)
+        | .ok reg => return withSpec st (jRender (ansiFormat (registryResolver reg) [] text (some st)))
       | "tag" | "add" =>
         let tag ← fChars j "tag"
         let base := if route == "tag" then pastelRegistry else defaultRegistry
         match base with
-        | .error e => return jErr e
+        | .error e => return withSpec st (jErr e)
         | .ok reg =>
           match register reg st with
-          | .error e => return jErr e
+          | .error e => return withSpec st (jErr e)
           | .ok reg' =>
             let msg := '<' :: (tag ++ '>' :: (text ++ '<' :: '/' :: (tag ++ ['>'])))
-            return jRender (ansiFormat (registryResolver reg') [] msg none)
+            return withSpec st (jRender (ansiFormat (registryResolver reg') [] msg none))
       | _ => throw s!"unknown route {route}"
   | "c11.render" => some do
       let msg ← fChars j "msg"
@@ -172,8 +190,8 @@ def handle (m : String) (j : Json) : Option (R Json) :=
         if !covered tab msg then return Json.mkObj [("err", .str "UnresolvedTag")]
         let rv := resolverOf reg tab
         match mode with
-        | "ansi" => return jRender (ansiFormat rv st msg style)
-        | "plain" => return jRender (plainFormat rv st msg)
+        | "ansi" => return withWf j rv msg (jRender (ansiFormat rv st msg style))
+        | "plain" => return withWf j rv msg (jRender (plainFormat rv st msg))
         | _ => throw s!"unknown mode {mode}"
   | "c11.write" => some do
       let text ← fChars j "text"
@@ -191,16 +209,16 @@ def handle (m : String) (j : Json) : Option (R Json) :=
         let o : Out := { fmt := fmt, formatOutput := fo, quiet := ← fBool j "quiet",
                          verbosity := ← fNat j "verbosity", indent := ← fNat j "indent" }
         let one (r : Except Err (Str × Out)) : Json :=
-          match r with
+          withWf j rv text (match r with
           | .ok (b, _) => jOk (Json.mkObj [("out", jStr b), ("err", jStr [])])
-          | .error e => jErr e
+          | .error e => jErr e)
         match kind with
         | "output" => return one (o.call rv meth text flags)
         | "section" => return one (o.sectionCall rv meth text flags)
         | "io" =>
           match ({ out := o, err := o } : IOm).call rv meth text flags with
-          | .ok (b, e, _) => return jOk (Json.mkObj [("out", jStr b), ("err", jStr e)])
-          | .error e => return jErr e
+          | .ok (b, e, _) => return withWf j rv text (jOk (Json.mkObj [("out", jStr b), ("err", jStr e)]))
+          | .error e => return withWf j rv text (jErr e)
         | _ => throw s!"unknown kind {kind}"
   | "c11.scopes" => some do
       let prog ← progOf (← fArr j "prog").toList
